@@ -221,6 +221,17 @@ func inAssert(t *Thread, fn *ssa.Function, args []Value, pos token.Pos) Value {
 			m = e.fullModel(m)
 		}
 	}
+	if r == Sat && len(e.ts.rangeCons) > 0 {
+		// prefer a counterexample in which every float->int conversion is specified (replayable)
+		pref := nc
+		for _, rc := range e.ts.rangeCons {
+			pref = e.ts.And(pref, rc)
+		}
+		e.queries++
+		if r2, m2, _ := e.ps.Check(e.pc, pref, e.modelVars(pref)); r2 == Sat && m2 != nil {
+			m = e.fullModel(m2)
+		}
+	}
 	switch r {
 	case Unknown:
 		e.unknowns = append(e.unknowns, "assert "+label+": "+why)
